@@ -132,7 +132,13 @@ func ValidatePluginResponses(pluginResponses []*PluginResponse) error {
 				continue
 			}
 			fileName := filepath.Join(pluginResponse.PluginOut, file.GetName())
-			if pluginName, ok := seen[fileName]; ok {
+			// The same output location can be spelled as a relative and as an absolute path, the
+			// files are written to the absolute location.
+			seenKey := fileName
+			if absFileName, err := filepath.Abs(fileName); err == nil {
+				seenKey = absFileName
+			}
+			if pluginName, ok := seen[seenKey]; ok {
 				return fmt.Errorf(
 					"file %q was generated multiple times: once by plugin %q and again by plugin %q",
 					fileName,
@@ -140,7 +146,7 @@ func ValidatePluginResponses(pluginResponses []*PluginResponse) error {
 					pluginResponse.PluginName,
 				)
 			}
-			seen[fileName] = pluginResponse.PluginName
+			seen[seenKey] = pluginResponse.PluginName
 		}
 		// Note: we used to verify that the plugin set min/max edition correctly if it set the
 		// SUPPORTS_EDITIONS feature. But some plugins in the protoc codebase, from when editions
